@@ -118,6 +118,7 @@ type levelB struct {
 	alpha                           []prefix
 	clients                         []client
 	cases                           []bcase
+	compilePanic                    []string           // per case: Rearranger panic text, "" if none
 	fails                           [][]bfail          // per case
 	gots                            []map[bfail]string // per case: description of what was returned
 }
@@ -178,6 +179,13 @@ var qclassNames = []string{"m1", "nomap"}
 func (b *levelB) runCase(dir string, ci int, stores []storeCfg) {
 	c := &b.cases[ci]
 	text, m1set := caseText(c.surr, c.set)
+	if b.compilePanic[ci] != "" {
+		return
+	}
+	if msg := preflight(c.set); msg != "" {
+		b.compilePanic[ci] = msg // rdb.Compile would crash the process; reported in report()
+		return
+	}
 	for _, st := range stores {
 		path, err := dnsfix.Compile(dir, st.backend, []byte(text))
 		if err != nil {
@@ -278,6 +286,7 @@ func runLevelB(r *vlib.Run, dir string, deadline time.Time) *levelB {
 		}
 	}
 	b.nCases = len(b.cases)
+	b.compilePanic = make([]string, len(b.cases))
 	b.fails = make([][]bfail, len(b.cases))
 	b.gots = make([]map[bfail]string, len(b.cases))
 
@@ -314,6 +323,35 @@ func runLevelB(r *vlib.Run, dir string, deadline time.Time) *levelB {
 // (surrounding, set): the same surrounding with a proper subset, and, for
 // surroundings that extend "alone", "alone" with any subset (the set included).
 func (b *levelB) report(r *vlib.Run) {
+	// sets on which the Rearranger panics (the RocksDB compiler would crash)
+	panicking := map[uint64]bool{}
+	for ci := range b.cases {
+		if b.compilePanic[ci] != "" {
+			panicking[b.cases[ci].key()] = true
+		}
+	}
+	for ci := range b.cases {
+		c := &b.cases[ci]
+		if b.compilePanic[ci] == "" {
+			continue
+		}
+		minimal := true
+		for _, id := range c.ids {
+			if len(c.ids) > 1 && panicking[uint64(c.surr)<<32|uint64(setKey(canonLocs([]int{id})))] {
+				minimal = false
+			}
+		}
+		if c.surr != sAlone && panicking[uint64(sAlone)<<32|uint64(setKey(c.ids))] {
+			minimal = false
+		}
+		if !minimal {
+			continue
+		}
+		text, _ := caseText(c.surr, c.set)
+		violate(r, fmt.Sprintf("lpm-store/rdb-compile/%s/panic/%s", surrNames[c.surr], setText(c.set)),
+			fmt.Sprintf("Rearranger.AddLocation/Rearrange panics on this set (%s); rdb.Compile raises the same panic in a goroutine of SubnetRanger.MarshalMap and takes the process down\ndata file:\n%s", b.compilePanic[ci], text),
+			map[string]interface{}{"level": "A", "lines": strings.Split(strings.TrimSpace(setLines(c.set, "m1")), "\n"), "client": "0.0.0.0/0"})
+	}
 	all := map[bfailKey]bool{}
 	for ci := range b.cases {
 		k := b.cases[ci].key()
@@ -339,7 +377,7 @@ func (b *levelB) report(r *vlib.Run) {
 					sub = append(sub, c.ids[i])
 				}
 			}
-			sk := uint64(setKey(sub))
+			sk := uint64(setKey(canonLocs(sub)))
 			if len(sub) < n {
 				subs = append(subs, uint64(c.surr)<<32|sk)
 			}
@@ -432,4 +470,17 @@ func ecsOf(c *client) *dns.EDNS0_SUBNET {
 		fam = 2
 	}
 	return &dns.EDNS0_SUBNET{Code: dns.EDNS0SUBNET, Family: fam, SourceNetmask: uint8(c.plen), Address: append(net.IP(nil), c.ip16...)}
+}
+
+// canonLocs renames the two locations so that the first member is tagged aa
+// (level B enumerates taggings up to this renaming).
+func canonLocs(ids []int) []int {
+	if len(ids) == 0 || ids[0]%2 == 0 {
+		return ids
+	}
+	out := make([]int, len(ids))
+	for i, id := range ids {
+		out[i] = id ^ 1
+	}
+	return out
 }
